@@ -7,6 +7,7 @@ import (
 	"encoding/asn1"
 	"errors"
 	"fmt"
+	"math/bits"
 	"reflect"
 )
 
@@ -157,9 +158,13 @@ func NewKeyUsage(critical bool, flags KeyUsage) pkix.Extension {
 	content := make([]byte, 1)
 	content[0] = uint8(flags & 0xFE) //lowest bit must be zero
 
-	bs := asn1.BitString{
-		Bytes:     content,
-		BitLength: 7,
+	//DER demands that a named bit list has its trailing zero bits removed
+	bs := asn1.BitString{}
+	if content[0] != 0 {
+		bs = asn1.BitString{
+			Bytes:     content,
+			BitLength: 8 - bits.TrailingZeros8(content[0]),
+		}
 	}
 
 	//disard error since we control the data
